@@ -33,3 +33,45 @@ Proof.
 Qed.
 
 Print Assumptions system_doCheckRule_ok.
+
+(* ---- Round 3: AdaptiveSlot.Check, ONE iteration of `for _, rule := range rules` ----
+   Gen.system_Slot_Check_step: chk_0 / chk_2 = the (passed, snapshot) results of s.doCheckRule(rule) -
+   instantiated below with the REGENERATED doCheckRule -, not_inbound = the guard in front of the loop,
+   result_nil = whether the context carries a reusable TokenResult (either way the request is blocked:
+   action 1 = NewTokenResultBlockedWithCause, 2 = ResetToBlockedWithCause, argument = snapshot value).
+   It is the step of the model's [check_rules]: a passing rule continues, the first rule that does not
+   pass is returned with its snapshot; and [check_rules] is that step iterated ("first violated rule wins"). *)
+Definition snap_of (tr : list leaf_act) : option float :=
+  match tr with (_, LF v :: _) :: _ => Some v | _ => None end.
+
+Definition check_rules_step (x : node) (now : Z) (load cpu : float) (r : srule) : option (srule * float) :=
+  let '(passed, v) := do_check_rule x now load cpu r in if passed then None else Some (r, v).
+
+Lemma check_rules_unfold x now load cpu r rest :
+  check_rules x now load cpu (r :: rest)
+  = match check_rules_step x now load cpu r with Some b => Some b | None => check_rules x now load cpu rest end.
+Proof. unfold check_rules_step. cbn [check_rules]. destruct (do_check_rule x now load cpu r) as [p v]. destruct p; reflexivity. Qed.
+
+Lemma slot_check_unfold inbound x now load cpu rules ord :
+  slot_check inbound x now load cpu rules ord
+  = if negb inbound then None else check_rules x now load cpu (get_rules rules ord).
+Proof. reflexivity. Qed.
+
+Lemma system_Slot_Check_step_ok x now load cpu r inbound result_nil :
+  let chk := system_doCheckRule cpu (node_avg_rt x now) (nd_conc x) (node_max_avg x now EvComplete) (node_min_rt x now)
+               (node_qps x now EvPass) load (s_metric r) (s_strategy r) (s_trigger r) in
+  let g := system_Slot_Check_step (fst chk) (snd chk) (negb inbound) result_nil in
+  (fst g, snap_of (snd g))
+  = if negb inbound then (LReturn 0, None)          (* not inbound: nil result, the rules are not consulted *)
+    else match check_rules_step x now load cpu r with
+         | None => (LContinue tt, None)
+         | Some (_, v) => (LReturn 1, Some v)
+         end.
+Proof.
+  cbv zeta. rewrite system_doCheckRule_ok. unfold system_Slot_Check_step, check_rules_step.
+  destruct (do_check_rule x now load cpu r) as [p v]. cbn [fst snd].
+  destruct inbound, p, result_nil; reflexivity.
+Qed.
+
+Print Assumptions system_Slot_Check_step_ok.
+Print Assumptions check_rules_unfold.
